@@ -159,7 +159,13 @@ pub fn op_gds(args: &[Sexp]) -> String {
             if k % 3 == 2 {
                 s.elems.push(GdsElement::GdsArrayRef(GdsArrayRef {
                     name: format!("s{}", d),
-                    xy: [GdsPoint::new(0, 0), GdsPoint::new(10, 0), GdsPoint::new(0, 10)],
+                    // alternate between a "specified rectangular" lattice and a transposed / skewed one:
+                    // whatever the importer does with the array, the reference is a dependency
+                    xy: match (k + *i) % 3 {
+                        0 => [GdsPoint::new(0, 0), GdsPoint::new(10, 0), GdsPoint::new(0, 10)],
+                        1 => [GdsPoint::new(0, 0), GdsPoint::new(0, 10), GdsPoint::new(10, 0)],
+                        _ => [GdsPoint::new(0, 0), GdsPoint::new(10, 5), GdsPoint::new(-5, 10)],
+                    },
                     cols: 1,
                     rows: 1,
                     ..Default::default()
